@@ -2,7 +2,7 @@
    [run opcode argument].  Extracted to OCaml (bin/dlms_model) and also evaluated in the
    kernel by generated cases files.  Opcode names are parsed from the comments below by
    harness/lib.py — keep the format  "| <n> (* <name> *) =>". *)
-From Dlms Require Import Base CrcModel CrcSpec FieldsModel FieldsSpec AddrModel AddrSpec WrapperModel WrapperProofs.
+From Dlms Require Import Base CrcModel CrcSpec FieldsModel FieldsSpec AddrModel AddrSpec WrapperModel WrapperProofs TimeModel TimeProofs.
 
 Definition v_bools (l : list bool) : V := VList (map VBool l).
 Definition as_bools (v : V) : list bool := map as_b (as_list v).
@@ -23,6 +23,17 @@ Definition v_found (x : N * option N * nat) : V := let '(l, p, k) := x in VList 
 
 Definition v_whdr (h : whdr) : V := let '(s, d, l, v) := h in VList [VN s; VN d; VN l; VN v].
 Definition as_nats (v : V) : list nat := map (fun x => N.to_nat (as_n x)) (as_list v).
+
+Definition v_optz (o : option Z) : V := v_opt VInt o.
+Definition v_dtime (x : dtime) : V :=
+  let '(y, m, d, h, mi, s, us, off) := x in VList [VN y; VN m; VN d; VN h; VN mi; VN s; VN us; v_optz off].
+Definition as_dtime (v : V) : dtime :=
+  (as_n (arg 0 v), as_n (arg 1 v), as_n (arg 2 v), as_n (arg 3 v), as_n (arg 4 v), as_n (arg 5 v), as_n (arg 6 v),
+   as_optz (arg 7 v)).
+Definition as_cstat (v : V) : cstat := (as_b (arg 0 v), as_b (arg 1 v), as_b (arg 2 v), as_b (arg 3 v), as_b (arg 4 v)).
+Definition as_opt_cstat (v : V) : option cstat := if is_none v then None else Some (as_cstat v).
+Definition v_date3 (x : date3) : V := let '(y, m, d) := x in VList [VN y; VN m; VN d].
+Definition v_time4 (x : time4) : V := let '(h, mi, s, us) := x in VList [VN h; VN mi; VN s; VN us].
 
 Definition run (op : N) (a : V) : V :=
   match op with
@@ -89,5 +100,14 @@ Definition run (op : N) (a : V) : V :=
   | 64 (* tcp_recv *) =>
       let '(r, (rest, _)) := tcp_recv (as_bytes (arg 0 a), as_nats (arg 1 a)) in VList [v_res VBytes r; VBytes rest]
   | 65 (* spec_std_header *) => VBytes (std_header (as_n (arg 0 a)) (as_n (arg 1 a)) (as_n (arg 2 a)) (as_n (arg 3 a)))
+  (* ---- date-time codec (C16) ---- *)
+  | 70 (* datetime_to_bytes *) => v_res VBytes (datetime_to_bytes (as_dtime (arg 0 a)) (as_opt_cstat (arg 1 a)))
+  | 71 (* datetime_from_bytes *) =>
+      v_res (fun x => VList [v_dtime (fst x); v_cstat (snd x)]) (datetime_from_bytes (as_bytes a))
+  | 72 (* date_from_bytes *) => v_res v_date3 (date_from_bytes (as_bytes a))
+  | 73 (* time_from_bytes *) => v_res v_time4 (time_from_bytes (as_bytes a))
+  | 74 (* date_to_bytes *) => v_res VBytes (date_to_bytes (as_n (arg 0 a), as_n (arg 1 a), as_n (arg 2 a)))
+  | 75 (* time_to_bytes *) => v_res VBytes (time_to_bytes (as_n (arg 0 a), as_n (arg 1 a), as_n (arg 2 a), as_n (arg 3 a)))
+  | 76 (* spec_datetime *) => VBytes (std_datetime (as_dtime (arg 0 a)) (as_cstat (arg 1 a)))
   | _ => bad_args
   end.
